@@ -166,6 +166,18 @@ class FreshManifest(FnSpec):
     def setup(self, cx):
         me = SObj("IH5MFRecordObj", name="self")
         me.fields["_ublock"] = lambda cx2, i: ("ublock", i)
+        if cx.choose(2) == 1:  # a record that already has a loaded manifest with extensions: they are NOT taken over here
+
+            class Loaded(SVal):
+                def py_truth(s, cx2):
+                    return True
+
+                def py_getattr(s, cx2, n):
+                    if n == "manifest_exts":
+                        return "extensions-of-the-loaded-manifest"
+                    raise Unsupported("manifest attribute " + n)
+
+            me.fields["_manifest"] = Loaded()
         return A(self=me)
 
     def raises(self, cx, a):
